@@ -106,16 +106,17 @@ func (c *rmCallback) PreemptionPredicates(a *si.PreemptionPredicatesArgs) *si.Pr
 
 // World is one instance of the real core plus the mock shim.
 type World struct {
-	Scn   *Scenario
-	CC    *scheduler.ClusterContext
-	Rec   *Recorder
-	CB    *rmCallback
-	Model *ShimModel
-	Mem   map[string]string // monitor memory (part of the canonical state)
-	Dead  string            // non-empty after a panic or hang: the instance must not be used any more
-	Trace []Step
-	apps  []*objects.Application
-	late  map[string]func() // expired state timer callbacks that have not run yet (TIMER_STATE_EXPIRE / TIMER_STATE_LATE)
+	Scn        *Scenario
+	CC         *scheduler.ClusterContext
+	Rec        *Recorder
+	CB         *rmCallback
+	Model      *ShimModel
+	Mem        map[string]string // monitor memory (part of the canonical state)
+	Dead       string            // non-empty after a panic or hang: the instance must not be used any more
+	Trace      []Step
+	apps       []*objects.Application
+	failingAsk [2]string         // application and key of an ask sent to a failing application by the current op
+	late       map[string]func() // expired state timer callbacks that have not run yet (TIMER_STATE_EXPIRE / TIMER_STATE_LATE)
 }
 
 func settle(limit time.Duration) bool {
@@ -451,6 +452,12 @@ func (w *World) Run(op Op, f func()) *Step {
 			}
 		}()
 		f()
+		if w.failingAsk[0] != "" {
+			if app := w.findApp(w.failingAsk[0]); app != nil && app.GetAllocationAsk(w.failingAsk[1]) != nil {
+				w.Mem["ctx:ask-on-failing-app"] = "1"
+			}
+			w.failingAsk = [2]string{}
+		}
 	}
 	if !w.Scn.Watchdog {
 		// inline: a deadlock here is caught by the coordinator's per-item watchdog (harness error with the path)
@@ -558,7 +565,8 @@ func (w *World) tagContext(op Op) {
 	case "ASK", "ASK_BOUND":
 		if spec := w.Scn.Ask(op.A); spec != nil {
 			if app := w.findApp(spec.App); app != nil && (app.IsFailing() || app.IsFailed()) {
-				w.Mem["ctx:ask-on-failing-app"] = "1"
+				// the tag is set after the op, and only if the core accepted the ask (see Run)
+				w.failingAsk = [2]string{spec.App, op.A}
 			}
 			if app := w.findApp(spec.App); app != nil && app.IsCompleting() && len(app.GetAllAllocations()) == 0 {
 				// an application that emptied before it ever ran restarts from Completing: Completing -> Running without the admission gate
